@@ -249,7 +249,9 @@ func (n *pbNode) fieldsRec(r *rec.Rand) []rec.V {
 	for i := range idx {
 		idx[i] = i
 	}
-	rec.Shuffle(r, idx)
+	if len(idx) <= 300 { // large structs are built in ascending key order and recorded that way
+		rec.Shuffle(r, idx)
+	}
 	var vs []rec.V
 	for _, i := range idx {
 		vs = append(vs, rec.S(n.keys[i]), n.vals[i].rec(r))
@@ -1331,6 +1333,271 @@ func (n *serNode) rec() rec.V {
 	}
 }
 
+
+// ------------------------------------------------------------------ boundary sizes of every counted quantity
+
+// uvarint 1/2/3-byte boundaries and the single-byte wrap
+var boundSizes = []int{0, 1, 2, 4, 5, 6, 127, 128, 129, 255, 256, 257, 16383, 16384}
+
+const boundFamilies = 19
+
+var nestDepths = []int{31, 32, 33, 40, 100}
+
+func nKeys(n int) []string {
+	out := make([]string, n)
+	for i := range out {
+		out[i] = "k" + pad5(i)
+	}
+	return out
+}
+
+func pad5(i int) string {
+	s := "00000" + itoa(i)
+	return s[len(s)-5:]
+}
+
+func itoa(i int) string {
+	if i == 0 {
+		return "0"
+	}
+	var b []byte
+	for i > 0 {
+		b = append([]byte{byte('0' + i%10)}, b...)
+		i /= 10
+	}
+	return string(b)
+}
+
+func nNulls(n int) []*pbNode {
+	out := make([]*pbNode, n)
+	for i := range out {
+		out[i] = &pbNode{kind: 0}
+	}
+	return out
+}
+
+func structOf(ks []string, v func(i int) *pbNode) *pbNode {
+	nd := &pbNode{kind: 6}
+	for i, k := range ks {
+		nd.keys = append(nd.keys, k)
+		nd.vals = append(nd.vals, v(i))
+	}
+	return nd
+}
+
+// nest wraps leaf in depth containers (lists, structs, or alternating)
+func nest(depth, how int, leaf *pbNode) *pbNode {
+	v := leaf
+	for i := 0; i < depth; i++ {
+		useList := how == 0 || (how == 2 && i%2 == 0)
+		if useList {
+			v = &pbNode{kind: 5, list: []*pbNode{v}}
+		} else {
+			v = &pbNode{kind: 6, keys: []string{"a"}, vals: []*pbNode{v}}
+		}
+	}
+	return v
+}
+
+func baseCheck() checkIn {
+	return checkIn{store: "01ARZ3NDEKTSV4RRFFQ69G5FAW", model: validModelID, obj: "doc:1", rel: "viewer", user: "user:anne", ctx: emptyStruct()}
+}
+
+func baseIter(which int) iterIn {
+	return iterIn{which: which, store: "01ARZ3NDEKTSV4RRFFQ69G5FAW", a: "doc", b: "viewer", user: "user:anne", oidsNil: true}
+}
+
+// boundCase builds boundary case (family, n). Large struct / filter lists are recorded in
+// ascending order (fieldsRec keeps the order of sorted input for large n) so that the model's
+// insertion sort stays linear.
+func boundCase(w *rec.Writer, d desc, r *rec.Rand, seed uint64, fam, n int) {
+	checkPair := func(a, b checkIn, m string) {
+		d.M = m
+		w.Case(d, rec.I(3), rec.U64(seed), a.run(r, w, false), b.run(r, w, false))
+		w.Stat("bound.check_pairs", 1)
+	}
+	iterPair := func(a, b iterIn, m string) {
+		d.M = m
+		w.Case(d, rec.I(a.which), rec.U64(seed), a.run(w), b.run(w))
+		w.Stat("bound.iter_pairs", 1)
+	}
+	serCase := func(nd *serNode) {
+		b := keys.GetBuilder()
+		b.Serialize(nd.toSer())
+		out := append([]byte{}, b.Bytes()...)
+		b.Close()
+		w.Case(d, rec.I(1), nd.rec(), rec.B(out))
+		w.Stat("bound.ser", 1)
+	}
+	pbCase := func(nd *pbNode) {
+		b := keys.GetBuilder()
+		(*keys.PbValue)(nd.toValue(r, false)).WriteTo(b.Builder)
+		out := append([]byte{}, b.Bytes()...)
+		b.Close()
+		w.Case(d, rec.I(2), rec.I(1), nd.rec(r), rec.B(out))
+		w.Stat("bound.pb", 1)
+	}
+	switch fam {
+	case 0: // array of n elements nested in an array, followed by a sibling
+		inner := &serNode{kind: 7}
+		for i := 0; i < n; i++ {
+			inner.kids = append(inner.kids, &serNode{kind: 3})
+		}
+		serCase(&serNode{kind: 7, kids: []*serNode{inner, {kind: 6, s: "x"}}})
+	case 1: // map of n entries
+		m := &serNode{kind: 8}
+		for i := 0; i < n; i++ {
+			m.kids = append(m.kids, &serNode{kind: 1, n: uint64(i % 256)}, &serNode{kind: 3})
+		}
+		serCase(m)
+	case 2: // string / bytes of length n
+		serCase(&serNode{kind: 7, kids: []*serNode{{kind: 6, s: strings.Repeat("s", n)}, {kind: 0, s: strings.Repeat("\x04", n)}}})
+	case 3: // list of n values, top level and nested
+		pbCase(&pbNode{kind: 5, list: nNulls(n)})
+		pbCase(&pbNode{kind: 5, list: []*pbNode{{kind: 5, list: nNulls(n)}, {kind: 3, b: true}}})
+	case 4: // struct of n fields, top level and nested
+		pbCase(structOf(nKeys(n), func(i int) *pbNode { return &pbNode{kind: 3, b: i%2 == 0} }))
+		pbCase(&pbNode{kind: 5, list: []*pbNode{structOf(nKeys(n), func(int) *pbNode { return &pbNode{kind: 0} }), {kind: 4}}})
+	case 5: // {"l": [[e0..e(n-1)]]} vs {"l": [[e0], e1..e(n-1)]}: same element stream, counts 1/n vs n/1
+		if n < 2 {
+			return
+		}
+		a, b := baseCheck(), baseCheck()
+		a.ctx = structOf([]string{"l"}, func(int) *pbNode { return &pbNode{kind: 5, list: []*pbNode{{kind: 5, list: nNulls(n)}}} })
+		b.ctx = structOf([]string{"l"}, func(int) *pbNode {
+			return &pbNode{kind: 5, list: append([]*pbNode{{kind: 5, list: nNulls(1)}}, nNulls(n-1)...)}
+		})
+		checkPair(a, b, "list_elements_across_boundary")
+	case 6: // {"a": {k0..k(n-1)}} vs {"a": {k0}, k1..k(n-1)}
+		if n < 2 {
+			return
+		}
+		ks := nKeys(n)
+		null := func(int) *pbNode { return &pbNode{kind: 0} }
+		a, b := baseCheck(), baseCheck()
+		a.ctx = structOf([]string{"a"}, func(int) *pbNode { return structOf(ks, null) })
+		b.ctx = structOf(append([]string{"a"}, ks[1:]...), func(i int) *pbNode {
+			if i == 0 {
+				return structOf(ks[:1], null)
+			}
+			return &pbNode{kind: 0}
+		})
+		checkPair(a, b, "struct_fields_across_boundary")
+	case 7: // n top-level context fields; the pair differs in the last one
+		a, b := baseCheck(), baseCheck()
+		a.ctx = structOf(nKeys(n), func(int) *pbNode { return &pbNode{kind: 3, b: true} })
+		b.ctx = structOf(nKeys(n), func(i int) *pbNode { return &pbNode{kind: 3, b: i != n-1} })
+		checkPair(a, b, "last_ctx_field_changed")
+	case 8: // n contextual tuples (capped: tie_free is quadratic in the oracle)
+		if n > 300 {
+			return
+		}
+		a := baseCheck()
+		for i := 0; i < n; i++ {
+			a.tuples = append(a.tuples, atuple{o: "doc:" + pad5(i), r: "viewer", u: "user:anne"})
+		}
+		b := a.clone()
+		if n > 0 {
+			b.tuples[n-1].u = "user:bob"
+		}
+		checkPair(a, b, "last_ctx_tuple_changed")
+		// the last tuple's condition context swallows / releases the request context
+		if n > 0 {
+			c, e := a.clone(), a.clone()
+			c.tuples[n-1].hasCond, c.tuples[n-1].name, c.tuples[n-1].ctx = true, "c1", emptyStruct()
+			c.ctx = structOf([]string{"x"}, func(int) *pbNode { return &pbNode{kind: 0} })
+			e.tuples[n-1].hasCond, e.tuples[n-1].name = true, "c1"
+			e.tuples[n-1].ctx = structOf([]string{"x"}, func(int) *pbNode { return &pbNode{kind: 0} })
+			checkPair(c, e, "ctx_vs_last_cond_ctx")
+		}
+	case 9: // a condition context with n fields
+		a := baseCheck()
+		a.tuples = []atuple{{o: "doc:1", r: "viewer", u: "user:anne", hasCond: true, name: "c1",
+			ctx: structOf(nKeys(n), func(int) *pbNode { return &pbNode{kind: 2, s: "v"} })}}
+		b := a.clone()
+		if n > 0 {
+			b.tuples[0].ctx.vals[n-1] = &pbNode{kind: 2, s: "w"}
+		}
+		checkPair(a, b, "last_cond_ctx_field_changed")
+	case 10, 11, 12: // n conditions in the three iterator keys; the pair differs in the last (sorted) one
+		which := 4 + fam - 10
+		a := baseIter(which)
+		a.conds = nKeys(n)
+		b := a.clone()
+		if n > 0 {
+			b.conds[n-1] = "kzzzz"
+		}
+		iterPair(a, b, "last_condition_changed")
+	case 13: // n user filters
+		a := baseIter(4)
+		for i := 0; i < n; i++ {
+			a.uf = append(a.uf, ufEntry{o: "group:" + pad5(i), r: "member"})
+		}
+		b := a.clone()
+		if n > 0 {
+			b.uf[n-1].r = "owner"
+		}
+		iterPair(a, b, "last_userfilter_changed")
+	case 14: // n object ids
+		a := baseIter(4)
+		a.oidsNil = false
+		a.oids = nKeys(n)
+		b := a.clone()
+		if n > 0 {
+			b.oids[n-1] = "kzzzz"
+		}
+		iterPair(a, b, "last_objectid_changed")
+	case 15: // n user type restrictions
+		a := baseIter(5)
+		for i := 0; i < n; i++ {
+			a.refs = append(a.refs, refEntry{t: "t" + pad5(i), kind: i % 3})
+			if i%3 == 0 {
+				a.refs[i].r = "member"
+			}
+		}
+		b := a.clone()
+		if n > 0 {
+			b.refs[n-1] = refEntry{t: "tzzzzz", kind: 2}
+		}
+		iterPair(a, b, "last_restriction_changed")
+	case 16: // string fields of length n, one byte moved across the boundary
+		a := baseCheck()
+		a.store, a.model = strings.Repeat("s", n), "m"
+		b := a.clone()
+		if n > 0 {
+			b.store, b.model = a.store[:n-1], "s"+a.model
+		}
+		checkPair(a, b, "store_model_byte_shift")
+		it := baseIter(6)
+		it.a = strings.Repeat("o", n)
+		it2 := it.clone()
+		if n > 0 {
+			it2.a, it2.b = it.a[:n-1], "o"+it.b
+		}
+		iterPair(it, it2, "object_relation_byte_shift")
+	case 17, 18: // deep nesting: values that differ only at the deepest level
+		for _, depth := range nestDepths {
+			for how := 0; how < 3; how++ {
+				a, b := baseCheck(), baseCheck()
+				leafA, leafB := &pbNode{kind: 2, s: "x"}, &pbNode{kind: 2, s: "y"}
+				if fam == 18 { // the deepest container's size differs
+					leafA, leafB = &pbNode{kind: 5, list: nNulls(1)}, &pbNode{kind: 5, list: nNulls(2)}
+				}
+				a.ctx = structOf([]string{"d"}, func(int) *pbNode { return nest(depth, how, leafA) })
+				b.ctx = structOf([]string{"d"}, func(int) *pbNode { return nest(depth, how, leafB) })
+				if n == 0 {
+					checkPair(a, b, "deep_leaf_changed")
+				} else if how == 0 && fam == 17 { // ... inside a contextual tuple's condition context
+					c, e := baseCheck(), baseCheck()
+					c.tuples = []atuple{{o: "doc:1", r: "viewer", u: "user:anne", hasCond: true, name: "c1", ctx: a.ctx}}
+					e.tuples = []atuple{{o: "doc:1", r: "viewer", u: "user:anne", hasCond: true, name: "c1", ctx: b.ctx}}
+					checkPair(c, e, "deep_leaf_changed_in_cond_ctx")
+				}
+			}
+		}
+	}
+}
+
 // ------------------------------------------------------------------ cases
 
 type desc struct {
@@ -1348,6 +1615,15 @@ func runCase(w *rec.Writer, kind string, sub uint64, tier string) {
 	seed := r.Uint64()
 	keys.Seed = seed // Digest.Reset re-reads it on every GetDigest
 	switch kind {
+	case "bound":
+		fam, si := int(sub/100), int(sub%100)
+		if fam >= boundFamilies || si >= len(boundSizes) {
+			return
+		}
+		if fam >= 17 && si > 1 {
+			return
+		}
+		boundCase(w, d, r, seed, fam, boundSizes[si])
 	case "ser":
 		n := genSer(r, 3)
 		b := keys.GetBuilder()
@@ -1509,6 +1785,12 @@ func main() {
 	}
 	r := rec.NewRand(o.Seed)
 	runCase(w, "nilempty", r.Uint64(), o.Tier)
+	// boundary sizes of every counted quantity, in every tier
+	for fam := 0; fam < boundFamilies; fam++ {
+		for si := range boundSizes {
+			runCase(w, "bound", uint64(fam*100+si), o.Tier)
+		}
+	}
 	for i := 0; i < o.N; i++ {
 		runCase(w, kinds[r.Intn(len(kinds))], r.Uint64(), o.Tier)
 	}
